@@ -129,6 +129,37 @@ def run(chk, replay=None):
                 if err.startswith('skip'):
                     stats['skipped_invalid_origin'] += 1; continue
                 oracle.append((err, rec)); continue
+            # the units of the cn elements of the moved components: every name must exist in the flat model and, when it is not a
+            # units of the monolith, be the library's cn-only units (dimensionless, no factor)
+            flat_text = open(res['flatf']).read()
+            fdefs = {m_.group(1): m_.group(2) for m_ in re.finditer(r'<units name="([^"]+)">(.*?)</units>', flat_text, re.S)}
+            mono_units = set(re.findall(r'<units name="([^"]+)"', text))
+            badcn = None
+            for cname in md['moved']:
+                cm_ = re.search(r'<component name="%s">(.*?)</component>' % cname, flat_text, re.S)
+                mono_c = re.search(r'<component name="%s">(.*?)</component>' % cname, text, re.S)
+                if not cm_ or not mono_c:
+                    continue
+                fu = re.findall(r'cellml:units="([^"]+)"', cm_.group(1)); mu_ = re.findall(r'cellml:units="([^"]+)"', mono_c.group(1))
+                if len(fu) != len(mu_):
+                    badcn = 'component %s has %d cn elements in the flat model, %d before' % (cname, len(fu), len(mu_)); break
+                lib_c = None
+                for lf_, lt_ in md['files'].items():
+                    mm_ = re.search(r'<component name="%s">(.*?)</component>' % md['srcname'].get(cname, cname), lt_, re.S) if lf_.startswith('lib') else None
+                    if mm_:
+                        lib_c = re.findall(r'cellml:units="([^"]+)"', mm_.group(1))
+                for j, un in enumerate(fu):
+                    if un == 'dimensionless':
+                        continue
+                    if un not in fdefs:
+                        badcn = 'cn element %d of component %s refers to units %s, which the flat model does not define' % (j, cname, un); break
+                    special = lib_c is not None and j < len(lib_c) and (lib_c[j].startswith('cnu_') or (lib_c[j] == 'percent' and mu_[j] == 'dimensionless'))
+                    if special and ('multiplier' in fdefs[un] or 'prefix' in fdefs[un] or 'units="dimensionless"' not in fdefs[un]):
+                        badcn = 'cn element %d of component %s was in the library\'s plain dimensionless units %s and is in %s (%s) in the flat model' % (j, cname, lib_c[j], un, fdefs[un].strip()[:80]); break
+                if badcn:
+                    break
+            if badcn:
+                oracle.append(('the units of a cn element change through flattening: ' + badcn, rec)); continue
             real = C20.run_real(hxg, res['flatf'], [])
             if real is None:
                 oracle.append(('the analyser crashes on the flat model', rec)); continue
